@@ -10,6 +10,7 @@ import itertools
 import re
 
 from vverif import lockstep as ls
+from vverif import lsx
 from vverif import httpref
 from vverif.core import Result, Violation, HarnessError
 
@@ -201,7 +202,7 @@ def all_cases(quick):
 
 
 def make_world(ctx, shard):
-    return ls.World(ctx, 'w%d' % shard, ls.port_base_for_check(ctx.pid, shard), memory_cache=True,
+    return lsx.RetryWorld(ctx, 'w%d' % shard, ls.port_base_for_check(ctx.pid, shard), memory_cache=True,
                     conf='maximum_object_size_in_memory 512 KB\nacl unlimited urlpath_regex ^/L\nrange_offset_limit none unlimited\n')
 
 
